@@ -1020,8 +1020,9 @@ fn check_history(ctx: &mut Ctx, h: &Hist, max_boundaries: usize, max_images: usi
             return;
         }
     };
-    let mut seen: HashSet<u64> = HashSet::new();
+    let mut seen: HashMap<u64, bool> = HashMap::new();
     let mut witnessed: HashSet<usize> = HashSet::new();
+    let mut complete: HashSet<usize> = HashSet::new();
     let mut images_done = 0usize;
     let by_k: HashMap<usize, &Boundary> = bounds.iter().map(|b| (b.k, b)).collect();
     for k in &chosen {
@@ -1052,8 +1053,11 @@ fn check_history(ctx: &mut Ctx, h: &Hist, max_boundaries: usize, max_images: usi
                 canon.push_str(&format!("{n}:{}:{:x};", v.len(), crate::report::fnv(v)));
             }
             let hsh = crate::report::fnv(canon.as_bytes());
-            if !seen.insert(hsh) {
+            if let Some(failed) = seen.get(&hsh) {
                 ctx.report.count("images:duplicate-skipped");
+                if *failed {
+                    witnessed.insert(b.k);
+                }
                 continue;
             }
             // differs from "all applied" only in meta.json?
@@ -1066,6 +1070,7 @@ fn check_history(ctx: &mut Ctx, h: &Hist, max_boundaries: usize, max_images: usi
                 b.k - 1, op_before);
             images_done += 1;
             let out = judge_image(ctx, &files, b.acked, b.started, &run.expected, &visible_meta, &visible_files, sole_meta_lost, &desc, Some(d.model_rec), &hist_json);
+            seen.insert(hsh, out.fail.is_some());
             match &out.fail {
                 Some(f) => {
                     ctx.report.count(&format!("image-outcome:fail:{}", f.kind));
@@ -1078,14 +1083,20 @@ fn check_history(ctx: &mut Ctx, h: &Hist, max_boundaries: usize, max_images: usi
                     "acked": b.acked, "started": b.started, "recovered_opstamp": out.opstamp, "failure": out.fail.as_ref().map(|f| f.detail.clone())}));
             }
         }
+        complete.insert(b.k);
     }
-    // a discipline violation must be witnessed by a failing image right after the offending op
+    // a discipline violation must be witnessed: the model names the operation whose protection is
+    // missing, and one of the images right after it (the un-synced item lost / applied) has to
+    // make the real code fail. A violated rule without such a witness means model and code
+    // disagree about what the rule protects.
     for (i, rs) in &viol {
         let k = i + 1;
-        if must_chosen.contains(&k) && !witnessed.contains(&k) {
-            // the image may have been evaluated (and failed) at an earlier boundary with equal content
-            ctx.report.count("discipline-violation:no-new-witness-at-boundary");
-            let _ = rs;
+        if must_chosen.contains(&k) && complete.contains(&k) && !witnessed.contains(&k) {
+            let names: Vec<String> = rs.iter().map(|r| match r { 30 => "D3a".to_string(), 31 => "D3b".to_string(), x => format!("D{x}") }).collect();
+            let op = trace.src.get(*i).copied().flatten().map(|s| run.log[s].line()).unwrap_or_else(|| trace.toks[*i].clone());
+            ctx.report.violation("model", &format!("C01:discipline-{}-violated-no-witness", names.join("+")), format!("op #{i} [{op}] breaks {names:?} but every crash image right after it is recovered correctly by the real code"), json!({"kind":"history","history":hist_json}));
+        } else if must_chosen.contains(&k) && witnessed.contains(&k) {
+            ctx.report.count("discipline-violation:witnessed-by-failing-image");
         }
     }
 }
@@ -1099,6 +1110,7 @@ pub fn run(ctx: &mut Ctx) {
         "real log satisfies the decidable discipline D0,D1,D2,D4 (D3a/D3b: finding S1) — every offending op is returned".into(),
         "model recover(image descriptor) = commit the real Index::open recovers from the materialised image".into(),
         "every enumerated image is allowed by the fault model (run-time self check of the enumerator)".into(),
+        "every operation the model reports as breaking a rule is witnessed by a crash image right after it that the real code fails on".into(),
         "file names: extracted META/MANAGED/lock names and component suffixes = names the real code uses".into(),
         "oracle: open succeeds, content = one commit j in [lastAcked,lastStarted], files validate, writer+commit+GC work".into(),
     ];
